@@ -107,14 +107,14 @@ impl<'a> ChoiceRng<'a> {
 impl RngCore for ChoiceRng<'_> {
     fn next_u32(&mut self) -> u32 {
         if self.env.past_horizon() {
-            return 0x8000_0000;
+            return (self.env.tail_word() >> 32) as u32;
         }
         let j = self.env.choose(self.alphabet.width(), Kind::U32);
         self.alphabet.word32(j)
     }
     fn next_u64(&mut self) -> u64 {
         if self.env.past_horizon() {
-            return 0x8000_0000_0000_0000;
+            return self.env.tail_word();
         }
         let j = self.env.choose(self.alphabet.width(), Kind::U64);
         self.alphabet.word64(j)
@@ -122,7 +122,8 @@ impl RngCore for ChoiceRng<'_> {
     fn fill_bytes(&mut self, dst: &mut [u8]) {
         for chunk in dst.chunks_mut(8) {
             if self.env.past_horizon() {
-                chunk.fill(0x80);
+                let w = self.env.tail_word().to_le_bytes();
+                chunk.copy_from_slice(&w[..chunk.len()]);
                 continue;
             }
             let j = self.env.choose(self.alphabet.width(), Kind::Bytes);
